@@ -12,6 +12,31 @@ from . import rules_kernels as KN
 from . import rules_hw as HW
 from . import rules_flow as F
 from . import rules_sib as SB
+from . import rules_it as IT
+from . import rules_own as _O, rules_matrix as _MX, rules_hw as _HW
+
+
+def _isolate(mod):
+    """A rule that cannot recognise its anchor (AnalysisBroken) must not keep the other rules of the property from running: the
+    failure is recorded on the context; report.finish turns it into exit 2 unless some rule found a violation."""
+    for name in dir(mod):
+        fn = getattr(mod, name)
+        if name.startswith('r_') and callable(fn) and not getattr(fn, '_isolated', False):
+            def wrapper(ctx, *a, **k):
+                fn0 = k.pop('__fn')
+                try:
+                    return fn0(ctx, *a, **k)
+                except pdb.AnalysisBroken as e:
+                    ctx.broken_rules.append((e.rule, e.reason))
+                    return None
+            import functools
+            w = functools.partial(wrapper, __fn=fn)
+            w._isolated = True
+            setattr(mod, name, w)
+
+
+for _m in (T, P, I, D, CB, PA, K, O, KN, HW, F, SB, IT, _O, _MX, _HW):
+    _isolate(_m)
 
 PROPS = {}
 MAIN3 = [1, 2, 3]        # RS-2^8, RS-2^m, LDPC-Staircase
@@ -57,6 +82,9 @@ def c01(ctx):
         F.r_ro_flow(ctx, prog, MAIN3)
         SB.r_siblings(ctx, prog, ['rs-algebra', 'rs-api'])
         F.r_init_order(ctx, prog, MAIN3)
+        IT.r_symtab_writers(ctx, prog)
+        IT.r_it_register(ctx, prog)
+        IT.r_copy_scale(ctx, prog)
         KN.r_kernel_shape(ctx, prog)
         KN.r_kea(ctx, prog, list(range(0, 2 * KN.P + 9)), [0, 1, 2, 3, 4, 5, 7, 8, 9, 12, 13, 16, 20])
     return dict(
@@ -101,6 +129,9 @@ def c04(ctx):
         D.r_count(ctx, prog, [3])
         D.r_complete(ctx, prog, [3])
         D.r_it_step3(ctx, prog)
+        IT.r_symtab_writers(ctx, prog)
+        IT.r_it_register(ctx, prog)
+        IT.r_copy_scale(ctx, prog, ['of_it_decoding.c', 'of_ldpc_staircase_api.c', 'of_matrix_sparse.c'])
         F.r_init_order(ctx, prog, [3])
         I.r_layout(ctx, prog, [3])
         D.r_retset(ctx, prog, [3])
@@ -404,7 +435,7 @@ def c13(ctx):
             sizes, counts = list(range(0, 8 * KN.P + 1)), list(range(0, 25))
         else:
             sizes, counts = list(range(0, 4 * KN.P + 1)), list(range(0, 21))
-        runs += KN.r_kea(ctx, prog, sizes, counts)
+        runs += KN.r_kea(ctx, prog, sizes, counts) or 0
         T.r_tables(ctx, prog)
     return dict(
         explanation='Kernel extent analysis: an abstract interpreter over the IR of the seven kernels (exact integers for size-derived '
@@ -431,6 +462,7 @@ def c03(ctx):
         F.r_ml_pipeline(ctx, prog)
         F.r_ml_giveup(ctx, prog)
         F.r_init_order(ctx, prog, [3])
+        IT.r_symtab_writers(ctx, prog)
         D.r_finish_truth(ctx, prog, [3])
         MX.r_pairswap(ctx, prog)
         MX.r_scratch_reset(ctx, prog)
